@@ -16,7 +16,7 @@ PROPERTY = "C03"
 T = "\t".join
 
 G1 = list(universe.G1)
-G2M = list(universe.G2[:-1])      # without the second `U u1` line (C17)
+G2M = list(universe.G2_SINGLE)      # without the second `U u1` line (C17)
 
 SEEDS = {
     "L": [T(["H", "VN:Z:1.0"]), T(["S", "A", "*"]), T(["S", "B", "*"]),
